@@ -15,6 +15,8 @@ for e, fns in [("REPT_step", ["REPT_Processor", "REPT_GetPos"]), ("IRP_step", ["
 GROUPS.append(G("pos_INCLUDE_lines", "harness/C20/h_as_include.c", "h_INCLUDE_lines", enforce=[], link=["asmdef.c", "strcomp.c"], stubs=["stubs/gerr.c"], unwind=8, timeout=600, dfcc=False,
                 object_bits=12, defs=["-DSTRINGSIZE=64"],
                 functions=["ExpandINCLUDE_Core", "INCLUDE_Processor", "INCLUDE_Restorer", "GenerateProcessor"]))
+GROUPS.append(G("pos_GenerateProcessor", "harness/C20/h_as_include.c", "h_GenerateProcessor", enforce=[], link=["asmdef.c", "strcomp.c"], stubs=["stubs/gerr.c"], unwind=8, timeout=600, dfcc=False,
+                object_bits=12, defs=["-DSTRINGSIZE=64"], functions=["GenerateProcessor"]))
 TRUSTED_BASE = ["ghost output channels / exit monitor of h_asmerr.c", "argument-logging stubs of h_as_rept.c"]
 ASSUMPTIONS = ["announcing the numbers of the EXPECT machinery's own messages (2130, 2150, 2160) is excluded"]
 NOT_COVERED = ["GetErrorPos chain concatenation", "MACRO_Processor line counting", "INCLUDE_SearchCore (file search), ReadLnCont (oracle: number of physical lines read)", "ReadLnCont continuation lines", "column markers", "-gnuerrors formatting"]
